@@ -224,6 +224,21 @@ class Edit:
         self.pos, self.dele, self.text, self.origin, self.seq = pos, dele, text, origin, seq
 
 
+# number of loops each contracted function had when its contract was written (contracts/loop_counts.json, regenerated with
+# tools/gen_loop_counts.py whenever contracts change).  A function whose loop structure differs needs NEW loop invariants before
+# anything about it can be proved: its failed obligations are 'undecided', not violations.
+LOOP_BASELINE = {}
+
+
+def load_loop_baseline(verif):
+    import json
+    LOOP_BASELINE.clear()
+    try:
+        LOOP_BASELINE.update(json.load(open(os.path.join(verif, 'contracts', 'loop_counts.json'))))
+    except Exception:
+        pass
+
+
 class Woven:
     """result for one source file"""
 
@@ -272,7 +287,8 @@ def weave_file(file, src, fnspecs, blockitems, canary=False, degrade=(), extern=
     seq = [0]
     clauses = {}
     contracted = {}
-    skipped = []   # body-level directives that could not be placed (lost anchor) or were dropped on purpose (degrade)
+    skipped = []
+    restructured = {}   # body-level directives that could not be placed (lost anchor) or were dropped on purpose (degrade)
 
     def add(pos, dele, text, origin):
         seq[0] += 1
@@ -359,6 +375,14 @@ def weave_file(file, src, fnspecs, blockitems, canary=False, degrade=(), extern=
                 raise Undecided('%s: body directives on a declaration' % key)
             continue
         lo, hi = f.sig_end + 1, f.body_end
+        base0 = LOOP_BASELINE.get(key)
+        loops0 = rp.find_loops(m, lo, hi)
+        if base0 is not None and base0 != len(loops0):
+            restructured[key] = 'the body has %d loops, its contract was written for %d' % (len(loops0), base0)
+        for L0 in spec.loops:
+            pre0 = ' '.join(L0['prefix'].split())
+            if not any(q.header.startswith(pre0) for q in loops0):
+                restructured[key] = 'loop %r of the contract is no longer in the body' % L0['prefix']
         if key in extern:
             ls = m.rfind('\n', 0, f.kw) + 1
             add(ls, 0, ind + '#[verifier::external_body]\n', ('contract', 'auto', 0, None))
@@ -369,6 +393,9 @@ def weave_file(file, src, fnspecs, blockitems, canary=False, degrade=(), extern=
             continue
         # loops
         loops = rp.find_loops(m, lo, hi)
+        base = LOOP_BASELINE.get(key)
+        if base is not None and base != len(loops):
+            restructured[key] = 'the body has %d loops, its contract was written for %d' % (len(loops), base)
         for L in spec.loops:
             if L['n'] < 1 or L['n'] > len(loops) or not loops[L['n'] - 1].header.startswith(' '.join(L['prefix'].split())):
                 # the loop this invariant was written for is gone or moved: try to find it by its header prefix
@@ -377,6 +404,7 @@ def weave_file(file, src, fnspecs, blockitems, canary=False, degrade=(), extern=
                     lp = cand[0]
                 else:
                     skipped.append((key, 'loop %d %r not found (%s:%d)' % (L['n'], L['prefix'], spec.vfile, L['vline'])))
+                    restructured[key] = 'loop %r of the contract is no longer in the body' % L['prefix']
                     continue
             else:
                 lp = loops[L['n'] - 1]
@@ -533,6 +561,7 @@ def weave_file(file, src, fnspecs, blockitems, canary=False, degrade=(), extern=
     w.clauses = clauses
     w.noterm = w_noterm
     w.skipped = skipped
+    w.restructured = restructured
     cur = []
     cur_or = []
     out_pos_map = []  # (src_pos, out_line) for source segments -> to map fn ranges
